@@ -148,7 +148,8 @@ CHECKS["C06"] = dict(
   category="exploration",
   text="Finite-exhaustive part: every zero-argument Any*/AnyBut* class and token is decided against its documented set for ALL "
        "0x110000 code points, incl. the complement law and ~A == AnyBut* (complete); AnyFrom(c) / AnyButFrom(c) emit the literal c / "
-       "its negation for EVERY code point c (complete). Parametric constructors (AnyFrom/AnyButFrom/"
+       "its negation for EVERY code point c, and the four parametrised constructors are decided for every pair of ASCII characters "
+       "(complete for those arguments). Parametric constructors (AnyFrom/AnyButFrom/"
        "AnyBetween/AnyButBetween) are checked by the bounded stand-in B2: all singles and pairs (and sampled triples) of 25 "
        "distinguished characters plus 5 token instances, every ordered pair as a range, under several hash seeds, membership over "
        "~800 interesting code points. 'For any characters at all' is therefore sampled, hence exploration. Proved part (G9, VCs over "
